@@ -115,7 +115,9 @@ func (cc *ChangeCollector) GetChanges() []*NodeChange {
 	changes := make([]*NodeChange, len(cc.Changes))
 	idx := 0
 	for _, v := range cc.Changes {
-		changes[idx] = v
+		// a copy: AddChange rewrites the collected change objects in place under the
+		// lock, and the caller reads what it is given here without it
+		changes[idx] = &NodeChange{Old: v.Old, New: v.New}
 		idx++
 	}
 	return changes
